@@ -37,6 +37,7 @@ THEOREMS = ['C11_inverse_den', 'C11_inverse_complcell_rejects',
             'C11_parse_psem', 'C11_accepted_iff',
             'C11_nested_rejected', 'C11_colon_hash_rejected',
             'C11_parse_sound', 'C11_lex_sound', 'C11_get_ast_sound',
+            'C11_split_card', 'C11_card_geometry',
             'C11_get_ast_accepts_iff',
             'C11_nested_refuted', 'C11_colon_hash_refuted']
 TRUSTED = [
@@ -1057,32 +1058,69 @@ OPTIONS = ['imp:n=1', 'IMP:N=1 IMP:P=0', 'u=2', 'fill=3', 'vol=1.5 imp:n=1',
            '*fill=4 (1 0 0)', 'tmp=2.5e-8', 'lat=1 u=5 imp:n=1', '']
 
 
-def run_split(res, rng, texts):
-    '''cellcard.split: the geometry part of a card is the expression'''
+def impl_split(card):
     from MIP.mip import cellcard
+    try:
+        _name, _mat, geom, opts = cellcard.split(card)
+        return ('ok', geom, opts)
+    except IndexError:
+        return ('err', 'EIndex')
+    except ValueError:
+        return ('err', 'EValue')
+
+
+def run_split(res, rng, texts):
+    '''cellcard.split: sweep (the geometry part of a card parses like the
+    expression, options intact) and tie with Model.split_card (geometry and
+    options strings, or the exception) incl. malformed cards'''
     n_bad = 0
+    cases, meta = [], []
+
+    def tie(card):
+        if card in seen_cards:
+            return
+        seen_cards.add(card)
+        got = impl_split(card)
+        want = (f'(Ok ({cstr(got[1])}, {cstr(got[2])}))' if got[0] == 'ok'
+                else f'(Err {got[1]})')
+        cases.append(cpair(cstr(card), want))
+        meta.append((card, got))
+        res.count('split-tie:' + (got[0] if got[0] == 'ok' else got[1]))
+
+    seen_cards = set()
     for text in texts:
         if not text.strip():
             continue
         want = impl_get_ast(text)
-        if want[0] != 'ok':
-            continue
         opts = rng.choice(OPTIONS)
-        mat = rng.choice(['0', '3 -2.7', '12 0.0602', '1 1.0e-3'])
+        mat = rng.choice(['0', '3 -2.7', '12 0.0602', '1 1.0-3', '00', '7 +1'])
         glue = ' ' * rng.choice((1, 1, 2))
         if opts and text.rstrip().endswith(')') and rng.random() < 0.3:
             glue = ''            # "...)imp:n=1" is legal
         sep = ' '
-        if mat != '0' and text.startswith('(') and rng.random() < 0.5:
+        if ' ' in mat and text.startswith('(') and rng.random() < 0.5:
             sep = ''             # "1 3 -2.7(1:2)" : density glued to '('
-        card = f'{rng.randint(1, 999)} {mat}{sep}{text}{glue}{opts}'
+        name = str(rng.randint(1, 999))
+        lead = ' ' * rng.choice((0, 0, 1))
+        card = f'{lead}{name} {mat}{sep}{text}{glue}{opts}'
+        tie(card)
+        # malformed neighbours (tie only)
+        fault = rng.random()
+        if fault < 0.08:
+            tie(f'{name} {mat.split()[0]}')                 # no geometry
+        elif fault < 0.16:
+            tie(f'{name}a {mat} {text}{glue}{opts}')        # name not a number
+        elif fault < 0.24:
+            tie(f'{name} {mat.split()[0]} ({text}')         # '(' where the density is expected
+        elif fault < 0.32:
+            tie(f'{name}  {mat}   {text} {opts}  ')
+        if want[0] != 'ok':
+            continue
         res.seen(card)
         res.count('split:' + ('options' if opts else 'bare'))
-        try:
-            _name, _mat, geom, got_opts = cellcard.split(card)
-            got = impl_get_ast(geom)
-        except Exception as exc:     # noqa: BLE001
-            got, got_opts = ('err', type(exc).__name__), None
+        out = impl_split(card)
+        got = impl_get_ast(out[1]) if out[0] == 'ok' else out
+        got_opts = out[2] if out[0] == 'ok' else None
         if got != want or (got_opts or '').strip() != opts:
             n_bad += 1
             res.violation('impl-violation',
@@ -1093,14 +1131,30 @@ def run_split(res, rng, texts):
                            'observed': got}, found_input=True)
     res.obligation(f'sweep:split (geometry of {len(texts)} cell cards = the '
                    'expression)', n_bad == 0, f'{n_bad} differ')
+    bad, errs = common.run_case_files(
+        'c11_split', HEADER, 'string * res (string * string)', 'check_split',
+        cases, chunk=300)
+    res.obligation(f'tie:split ({len(cases)} cell cards incl. malformed: '
+                   'cellcard.split vs Model.split_card)',
+                   not bad and not errs, f'{len(bad)} disagreements {errs[:1]}')
+    for idx in bad[:8]:
+        card, got = meta[idx]
+        model, _ = common.coq_eval(HEADER, f'split_card {cstr(card)}')
+        res.violation('correspondence',
+                      f'cellcard.split({card!r}): implementation {got}, model '
+                      f'{model}',
+                      {'input': {'card': card}, 'observed': got, 'model': model,
+                       'theorem_or_correspondence': 'tie:split'},
+                      found_input=False)
 
 
 def replay(path):
     data = json.load(open(path))
     inp = data.get('input', {})
     if 'card' in inp:
-        from MIP.mip import cellcard
-        print('split:', cellcard.split(inp['card']))
+        print('split:', impl_split(inp['card']))
+        model, _ = common.coq_eval(HEADER, f'split_card {cstr(inp["card"])}')
+        print('model:', model)
     if 'text' in inp:
         import MIP.geom.parsegeom as pg
         print('normalize:', repr(pg.normalize(inp['text'])))
